@@ -77,6 +77,9 @@ mod oid;
 mod ring_like;
 mod sign_algo;
 pub mod string;
+#[cfg(rustls_rcgen_verif)]
+#[doc(hidden)]
+pub mod verif_hooks;
 
 /// Type-alias for the old name of [`Error`].
 #[deprecated(
@@ -300,7 +303,10 @@ See also the RFC 5280 sections on the [issuer](https://tools.ietf.org/html/rfc52
 and [subject](https://tools.ietf.org/html/rfc5280#section-4.1.2.6) fields.
 */
 pub struct DistinguishedName {
+	#[cfg(not(rustls_rcgen_verif))]
 	entries: HashMap<DnType, DnValue>,
+	#[cfg(rustls_rcgen_verif)]
+	entries: HashMap<DnType, DnValue, verif_hooks::SeededState>,
 	order: Vec<DnType>,
 }
 
